@@ -247,6 +247,8 @@ class PD:
 
     @staticmethod
     def concat(objs, ignore_index=False, **k):
+        if isinstance(objs, RepList):
+            return objs.concat(ignore_index)
         objs = [o for o in objs]
         real = [o for o in objs if not isinstance(o, EmptyFrame)]
         if len(real) == 0:
@@ -268,6 +270,34 @@ class PD:
 
     class Series:
         pass
+
+
+class RepList(_Generic):
+    """[table] * n for a symbolic n >= 0.  pd.concat of it stacks n copies of the table (assumed pandas contract): the generic
+    row of the result is (generic row of the table, copy number c in [0,n)); position = c * N + position in the table; index
+    labels repeat the table's labels"""
+
+    def __init__(self, items, n):
+        if len(items) != 1 or not isinstance(items[0], GFrame):
+            raise Unsupported("replicated list of something other than one table")
+        self.f, self.n = items[0], n
+
+    def concat(self, ignore_index):
+        from .frames import _space_counter, RowPos
+        cx = ctx()
+        f, n = self.f, self.n
+        u = next(cx.counter)
+        tot = SV(cx.fresh("Nrep", "Int"))
+        cx.assume(tot.t == to_z3(f.space.n) * to_z3(n))
+        sp = Space(n=tot, tag="rep")
+        if not ignore_index:
+            sp.label_id = next(_space_counter)
+        c = z3.Int(f"copy!{u}")
+        cx.assume(z3.And(c >= 0, c < to_z3(n)))
+        sp.rep = {"src": f, "src_space": f.space, "n": n, "copy": c, "sorted_by": None, "block_index": None}
+        r = GFrame(list(f.cols), dict(f.row), sp, f.present)
+        r.mult = to_z3(n)
+        return r
 
 
 def concat_frames(parts, ignore_index):
